@@ -38,27 +38,79 @@ import (
 // ------------------------------------------------------------------------------------------------
 // Fact extraction: lock-discipline skeletons
 // ------------------------------------------------------------------------------------------------
+//
+// The extractor turns the body of a method into a `Skel` term (lean/Firefly/Model/Locked.lean).  Every
+// statement and expression becomes a sequence of `.touch` / `.peek` leaves inside the control-flow
+// constructors; whatever contributes no leaf is `.skip`.  The proof obligation downstream is
+// `disciplined skel = true`, so the extractor is sound as long as it never UNDER-reports: a leaf may be
+// reported that does not happen (a disciplined trace stays disciplined when touches are removed from
+// it), but an access to lock-protected state must never become `.skip`, and a lock operation or a
+// control transfer must never be lost.  The argument for what is treated as `.skip`:
+//
+//  (S1) Allocator state is reachable only through *access paths* rooted at the receiver (or at a
+//       package variable of the allocator type, which is treated as the same root): alloc.reservedPages,
+//       alloc.pools[i].freeBitmap[j], ...  Every syntactic occurrence of such a path is classified by
+//       `access` (protected => `.touch`, written by initialisation only => `.peek`, unknown field =>
+//       extraction fails).
+//  (S2) A local variable can come to denote allocator state only by `p := &path`, `p := path` where
+//       path is a struct/slice (the copy shares the bitmap words), `p := q` for such a q, a range value
+//       variable over such a slice, or by being the parameter of a package-local callee that receives
+//       one of these.  All of these are *tracked*: the local becomes an alias for the path and every
+//       later use `p.f`, `p[i]`, `*p` is classified as the path it stands for (a copy is treated like
+//       the original: over-reporting).  Every other way of producing such a value fails the
+//       extraction: `&` anywhere else, an alias/struct/slice used as a plain value (assigned to an
+//       existing variable, stored, compared, passed to another package, returned), re-assignment of an
+//       alias, slicing, closures, go/defer, channel operations, type assertions, composite literals,
+//       calls through function values.  A declaration that shadows a package-level name fails as well,
+//       so an identifier never changes meaning.
+//       Hence an untracked local never points into allocator state, and an expression over untracked
+//       locals, constants and other packages' constants/functions is `.skip`.
+//  (S3) A read of a package variable is `.peek` and is recorded in `peeked`; Lean checks that nothing in
+//       the package writes (or takes the address of) a peeked name outside the initialisation functions.
+//       A write to a package variable fails the extraction.
+//  (S4) A call to a function or method of this package is analysed with the same rules (receiver and
+//       alias arguments bound to the caller's paths, recursion cut by an `active` set: a recursive
+//       activation adds no access the outer activation does not already report).  If the callee performs
+//       no lock operation, all its accesses happen at the call, during which the lock phase cannot
+//       change, so the call is summarised by its strongest access (`.touch` > `.peek` > nothing).  If
+//       it does perform lock operations its skeleton is spliced in at the call; this is exact only when
+//       every `return` of the callee is in tail position (then `return` = fall out of the spliced
+//       block), anything else fails.  Calls into other packages cannot reach allocator state (it is
+//       unexported and no alias may be passed), functions without a body (assembly) fail.
+//  (S5) Control flow: if/else, for (3-clause, condition-only, range), switch without fallthrough (an
+//       if/else chain; all case expressions are reported — over-reporting; an unlabelled `break` that
+//       belongs to a switch fails because `.brk` means "leave the loop"), return, unlabelled
+//       break/continue.  Labels, goto, fallthrough, select, type switches fail.
 
 // State of the allocator that AllocFrame/FreeFrame change (must be accessed under the lock) ...
 var c09Mutable = map[string]bool{"freeCount": true, "reservedPages": true, "totalPages": true}
 
-// ... and state that is written during initialisation only (reads are reported as `peek`; the list of
-// every function that writes one of them is generated as well and checked in Lean).
-var c09Frozen = map[string]bool{"pools": true, "startFrame": true, "endFrame": true, "freeBitmap": true,
-	"poolsHdr": true, "freeBitmapHdr": true}
-
 var c09Builtins = map[string]bool{"len": true, "cap": true, "uint64": true, "uint32": true, "uint16": true,
 	"uint8": true, "uint": true, "int": true, "int64": true, "int32": true, "uintptr": true, "bool": true}
 
+// struct type reached by an access path (for method lookup)
+var c09PathType = map[string]string{"": "BitmapAllocator", "pools.[]": "framePool"}
+
+type c09Env struct {
+	alias    map[string][]string // names that denote allocator state (receiver, tracked locals): name -> path
+	tailOnly bool                // body spliced into a caller: `return` is understood in tail position only
+	inSwitch int                 // switch statements entered since the innermost loop
+}
+
 type c09Extract struct {
-	recv    string
-	typ     string                   // receiver type name
-	imports map[string]bool          // import names visible in the file
-	pkgVars map[string]bool          // package-level variables (all non-test files)
-	methods map[string]*ast.FuncDecl // methods of the receiver type
-	peeked  map[string]bool          // frozen fields / package variables read by the skeletons
-	callees map[string]bool          // receiver methods called from the skeletons (checked lock-free)
-	fset    *token.FileSet
+	typ       string                              // the allocator type
+	imports   map[string]bool                     // import names
+	pkgVars   map[string]bool                     // package-level variables (all non-test files)
+	allocVars map[string]bool                     // ... those of the allocator type: another root of the state
+	funcs     map[string]*ast.FuncDecl            // package-level functions
+	methods   map[string]map[string]*ast.FuncDecl // receiver type -> method name -> declaration
+	peeked    map[string]bool                     // init-only fields / package variables read by the skeletons
+	callees   map[string]bool                     // package-local functions/methods analysed on behalf of the skeletons
+	analysed  map[string]bool                     // ... and the two methods themselves, as "Type.name" / ".name"
+	active    map[string]bool                     // callee activations in progress
+	recursed  map[string]bool                     // ... that were re-entered
+	env       *c09Env
+	fset      *token.FileSet
 }
 
 type c09Fail struct{ msg string }
@@ -87,12 +139,35 @@ func c09Block(xs []string) string {
 	return "(.block [" + strings.Join(ys, ", ") + "])"
 }
 
-// recvPath unwraps alloc.a[i].b[j] into ["a","[]","b","[]"] plus the index expressions.
+func c09HasLockOps(sk string) bool {
+	return strings.Contains(sk, ".acquire") || strings.Contains(sk, ".release")
+}
+
+func c09Unparen(e ast.Expr) ast.Expr {
+	for {
+		p, ok := e.(*ast.ParenExpr)
+		if !ok {
+			return e
+		}
+		e = p.X
+	}
+}
+
+// recvPath resolves alloc.a[i].b[j], p.b[j], *p, ... (p a tracked alias) into the access path
+// ["a","[]","b","[]"] plus the index expressions on the way.
 func (x *c09Extract) recvPath(e ast.Expr) (path []string, idx []ast.Expr, ok bool) {
 	switch e := e.(type) {
 	case *ast.Ident:
-		return nil, nil, e.Name == x.recv
+		if p, ok := x.env.alias[e.Name]; ok {
+			return append([]string{}, p...), nil, true
+		}
+		if x.allocVars[e.Name] {
+			return []string{}, nil, true
+		}
+		return nil, nil, false
 	case *ast.ParenExpr:
+		return x.recvPath(e.X)
+	case *ast.StarExpr:
 		return x.recvPath(e.X)
 	case *ast.SelectorExpr:
 		p, i, ok := x.recvPath(e.X)
@@ -110,13 +185,13 @@ func (x *c09Extract) recvPath(e ast.Expr) (path []string, idx []ast.Expr, ok boo
 	return nil, nil, false
 }
 
-// classify an access path rooted at the receiver. whole=true: the value is consumed element-wise
-// (range with a value variable); write=true: the path is assigned to.
+// classify an access path. whole=true: the value is consumed element-wise (range with a value
+// variable, struct copy); write=true: the path is assigned to.
 func (x *c09Extract) access(n ast.Node, path []string, whole, write bool) string {
 	p := strings.Join(path, ".")
 	peek := func(names ...string) string {
 		if write {
-			x.fail(n, "write to init-frozen allocator state %s.%s", x.recv, p)
+			x.fail(n, "write to init-only allocator state %s", p)
 		}
 		for _, s := range names {
 			x.peeked[s] = true
@@ -125,9 +200,9 @@ func (x *c09Extract) access(n ast.Node, path []string, whole, write bool) string
 	}
 	switch {
 	case len(path) == 0:
-		x.fail(n, "the receiver %s is used as a value (aliasing is not understood)", x.recv)
+		x.fail(n, "the allocator itself is used as a value (not understood)")
 	case path[0] == "mutex":
-		x.fail(n, "use of %s.%s other than the statements %s.mutex.Acquire() / %s.mutex.Release()", x.recv, p, x.recv, x.recv)
+		x.fail(n, "use of the mutex other than the statements <alloc>.mutex.Acquire() / <alloc>.mutex.Release()")
 	case len(path) == 1 && c09Mutable[path[0]]:
 		return ".touch"
 	case p == "pools":
@@ -136,6 +211,9 @@ func (x *c09Extract) access(n ast.Node, path []string, whole, write bool) string
 		}
 		return peek("pools")
 	case p == "pools.[]":
+		if write {
+			x.fail(n, "a whole pool (with its init-only fields) is overwritten")
+		}
 		return ".touch" // a whole framePool
 	case len(path) == 3 && path[0] == "pools" && path[1] == "[]":
 		f := path[2]
@@ -153,14 +231,77 @@ func (x *c09Extract) access(n ast.Node, path []string, whole, write bool) string
 	case p == "pools.[].freeBitmap.[]":
 		return ".touch"
 	}
-	x.fail(n, "access to allocator state %s.%s is not understood", x.recv, p)
+	x.fail(n, "access to allocator state <alloc>.%s is not understood", p)
 	return ""
 }
 
-// bare slice headers may only be consumed by len/cap or range
-func c09IsSliceHeader(path []string) bool {
-	p := strings.Join(path, ".")
-	return p == "pools" || p == "pools.[].freeBitmap"
+// values that share memory with the allocator when copied: the allocator, slices, a pool (holds a slice)
+func c09IsAggregate(path []string) bool {
+	switch strings.Join(path, ".") {
+	case "", "pools", "pools.[]", "pools.[].freeBitmap":
+		return true
+	}
+	return false
+}
+
+// declare introduces a local name; path != nil makes it a tracked alias (S2).
+func (x *c09Extract) declare(id *ast.Ident, path []string) {
+	n := id.Name
+	if n == "_" {
+		return
+	}
+	if x.pkgVars[n] || x.funcs[n] != nil || x.imports[n] || c09Builtins[n] || n == x.typ {
+		x.fail(id, "local %s shadows a package-level name", n)
+	}
+	if _, ok := x.env.alias[n]; ok {
+		x.fail(id, "%s, which denotes allocator state, is declared again", n)
+	}
+	if path != nil {
+		x.env.alias[n] = path
+	}
+}
+
+// aliasOf recognises the right-hand sides that make a local denote allocator state (S2) and reports
+// the accesses of evaluating them.
+func (x *c09Extract) aliasOf(e ast.Expr, out *[]string) ([]string, bool) {
+	e = c09Unparen(e)
+	if u, ok := e.(*ast.UnaryExpr); ok && u.Op == token.AND {
+		path, idx, ok := x.recvPath(u.X)
+		if !ok {
+			return nil, false
+		}
+		if len(path) > 0 && path[0] == "mutex" {
+			x.fail(e, "the address of the mutex is taken")
+		}
+		for _, i := range idx {
+			x.expr(i, out, false)
+		}
+		// computing an element address reads the slice headers on the way, not the element
+		for k, s := range path {
+			if s == "[]" {
+				x.peeked[path[k-1]] = true
+				*out = append(*out, ".peek")
+			}
+		}
+		x.access(e, path, true, false) // only to reject paths that are not understood
+		return path, true
+	}
+	path, idx, ok := x.recvPath(e)
+	if !ok {
+		return nil, false
+	}
+	if id, isId := e.(*ast.Ident); isId {
+		_ = id
+		return path, true // copy of a tracked pointer / of the receiver: no memory access
+	}
+	if !c09IsAggregate(path) {
+		return nil, false
+	}
+	for _, i := range idx {
+		x.expr(i, out, false)
+	}
+	*out = append(*out, x.access(e, path, strings.Join(path, ".") == "pools.[]", false))
+	return path, true
 }
 
 func (x *c09Extract) expr(e ast.Expr, out *[]string, hdrOK bool) {
@@ -168,8 +309,11 @@ func (x *c09Extract) expr(e ast.Expr, out *[]string, hdrOK bool) {
 	case nil:
 	case *ast.BasicLit:
 	case *ast.Ident:
-		if e.Name == x.recv {
-			x.fail(e, "the receiver %s is used as a value (aliasing is not understood)", x.recv)
+		if _, ok := x.env.alias[e.Name]; ok || x.allocVars[e.Name] {
+			x.fail(e, "%s denotes allocator state and is used as a plain value (not understood)", e.Name)
+		}
+		if x.funcs[e.Name] != nil {
+			x.fail(e, "function value %s is not understood", e.Name)
 		}
 		if x.pkgVars[e.Name] {
 			x.peeked[e.Name] = true
@@ -182,16 +326,19 @@ func (x *c09Extract) expr(e ast.Expr, out *[]string, hdrOK bool) {
 		x.expr(e.Y, out, false)
 	case *ast.UnaryExpr:
 		if e.Op == token.AND || e.Op == token.ARROW {
-			x.fail(e, "operator %s is not understood (aliasing / channels)", e.Op)
+			x.fail(e, "operator %s is understood only in `p := &<allocator state>`", e.Op)
 		}
 		x.expr(e.X, out, false)
-	case *ast.SelectorExpr, *ast.IndexExpr:
+	case *ast.SelectorExpr, *ast.IndexExpr, *ast.StarExpr:
 		if path, idx, ok := x.recvPath(e); ok {
 			for _, i := range idx {
 				x.expr(i, out, false)
 			}
-			if c09IsSliceHeader(path) && !hdrOK {
-				x.fail(e, "slice %s.%s escapes (only len/cap/range/indexing are understood)", x.recv, strings.Join(path, "."))
+			switch p := strings.Join(path, "."); {
+			case p == "" || p == "pools.[]":
+				x.fail(e, "allocator state <alloc>.%s is copied into a plain value (not understood)", p)
+			case c09IsAggregate(path) && !hdrOK:
+				x.fail(e, "slice <alloc>.%s escapes (only len/cap/range/indexing/`s := slice` are understood)", p)
 			}
 			*out = append(*out, x.access(e, path, false, false))
 			return
@@ -205,66 +352,138 @@ func (x *c09Extract) expr(e ast.Expr, out *[]string, hdrOK bool) {
 		case *ast.IndexExpr:
 			x.expr(e.X, out, false)
 			x.expr(e.Index, out, false)
+		case *ast.StarExpr:
+			x.expr(e.X, out, false) // an untracked pointer does not point into allocator state (S2)
 		}
 	case *ast.CallExpr:
-		switch f := e.Fun.(type) {
-		case *ast.Ident:
-			if !c09Builtins[f.Name] {
-				x.fail(e, "call to %s is not understood (only conversions, len, cap)", f.Name)
-			}
-			for _, a := range e.Args {
-				x.expr(a, out, f.Name == "len" || f.Name == "cap")
-			}
-		case *ast.SelectorExpr:
-			if id, ok := f.X.(*ast.Ident); ok && id.Name == x.recv {
-				for _, a := range e.Args {
-					x.expr(a, out, false)
-				}
-				x.lockFree(e, f.Sel.Name, 0)
-				x.callees[f.Sel.Name] = true
-				*out = append(*out, ".touch")
-				return
-			}
-			if id, ok := f.X.(*ast.Ident); ok && x.imports[id.Name] {
-				for _, a := range e.Args {
-					x.expr(a, out, false)
-				}
-				return // conversion to / function of another package; receives no pointer or slice
-			}
-			x.fail(e, "call is not understood")
-		default:
-			x.fail(e, "call is not understood")
-		}
+		x.call(e, out)
 	default:
 		x.fail(e, "expression %T is not understood", e)
 	}
 }
 
-// lockFree: a receiver method called from inside the critical section must not use the mutex itself
-// and may call only further such methods.
-func (x *c09Extract) lockFree(at ast.Node, name string, depth int) {
-	fd := x.methods[name]
-	if fd == nil || fd.Body == nil || depth > 8 {
-		x.fail(at, "receiver method %s not found (or call chain too deep)", name)
+func (x *c09Extract) call(e *ast.CallExpr, out *[]string) {
+	if e.Ellipsis != token.NoPos {
+		x.fail(e, "variadic call is not understood")
 	}
-	ast.Inspect(fd.Body, func(n ast.Node) bool {
-		switch n := n.(type) {
-		case *ast.SelectorExpr:
-			if n.Sel.Name == "mutex" {
-				x.fail(n, "method %s, called with the lock held, uses the mutex", name)
+	switch f := c09Unparen(e.Fun).(type) {
+	case *ast.Ident:
+		if c09Builtins[f.Name] {
+			for _, a := range e.Args {
+				x.expr(a, out, f.Name == "len" || f.Name == "cap")
 			}
-		case *ast.CallExpr:
-			if s, ok := n.Fun.(*ast.SelectorExpr); ok {
-				if id, ok := s.X.(*ast.Ident); ok && fd.Recv != nil && len(fd.Recv.List[0].Names) == 1 &&
-					id.Name == fd.Recv.List[0].Names[0].Name {
-					x.lockFree(n, s.Sel.Name, depth+1)
+			return
+		}
+		if fd := x.funcs[f.Name]; fd != nil {
+			x.inline(e, fd, nil, e.Args, out)
+			return
+		}
+		x.fail(e, "call to %s is not understood (not a conversion, len/cap or a function of this package)", f.Name)
+	case *ast.SelectorExpr:
+		if id, ok := f.X.(*ast.Ident); ok && x.imports[id.Name] {
+			for _, a := range e.Args {
+				x.expr(a, out, false) // no alias can be passed (S2): the callee cannot reach allocator state
+			}
+			return
+		}
+		if path, idx, ok := x.recvPath(f.X); ok {
+			typ, known := c09PathType[strings.Join(path, ".")]
+			fd := x.methods[typ][f.Sel.Name]
+			if !known || fd == nil {
+				x.fail(e, "method call %s on allocator state is not understood", f.Sel.Name)
+			}
+			for _, i := range idx {
+				x.expr(i, out, false)
+			}
+			x.inline(e, fd, path, e.Args, out)
+			return
+		}
+		x.fail(e, "call is not understood")
+	default:
+		x.fail(e, "call is not understood")
+	}
+}
+
+// inline analyses a package-local callee on behalf of a call (S4).
+func (x *c09Extract) inline(at *ast.CallExpr, fd *ast.FuncDecl, recv []string, args []ast.Expr, out *[]string) {
+	name := fd.Name.Name
+	if fd.Body == nil {
+		x.fail(at, "%s has no Go body", name)
+	}
+	var params []*ast.Ident
+	for _, p := range fd.Type.Params.List {
+		if _, ok := p.Type.(*ast.Ellipsis); ok {
+			x.fail(at, "%s is variadic", name)
+		}
+		if len(p.Names) == 0 {
+			params = append(params, nil)
+		}
+		for _, id := range p.Names {
+			params = append(params, id)
+		}
+	}
+	if len(params) != len(args) {
+		x.fail(at, "call of %s: %d arguments for %d parameters", name, len(args), len(params))
+	}
+	bound := map[string][]string{}
+	key := name
+	if fd.Recv != nil {
+		key = strings.Join(recv, ".") + "." + name
+		if len(fd.Recv.List) == 1 && len(fd.Recv.List[0].Names) == 1 {
+			bound[fd.Recv.List[0].Names[0].Name] = recv
+		}
+	}
+	for k, a := range args {
+		if p, ok := x.aliasOf(a, out); ok {
+			if params[k] != nil && params[k].Name != "_" {
+				bound[params[k].Name] = p
+				key += fmt.Sprintf("|%d=%s", k, strings.Join(p, "."))
+			}
+		} else {
+			x.expr(a, out, false)
+		}
+	}
+	x.callees[name] = true
+	x.analysed[c09FuncKey(fd)] = true
+	if x.active[key] {
+		x.recursed[key] = true
+		return // the outer activation reports everything this one could
+	}
+	x.active[key] = true
+	defer delete(x.active, key)
+	run := func(tailOnly bool) string {
+		saved := x.env
+		defer func() { x.env = saved }()
+		x.env = &c09Env{alias: map[string][]string{}, tailOnly: tailOnly}
+		for n, p := range bound {
+			x.env.alias[n] = p
+		}
+		for _, id := range params {
+			if id != nil && bound[id.Name] == nil {
+				x.declare(id, nil)
+			}
+		}
+		if fd.Type.Results != nil {
+			for _, r := range fd.Type.Results.List {
+				for _, id := range r.Names {
+					x.declare(id, nil)
 				}
 			}
-		case *ast.GoStmt, *ast.DeferStmt:
-			x.fail(n, "method %s, called with the lock held, uses go/defer", name)
 		}
-		return true
-	})
+		return x.stmt(fd.Body, true)
+	}
+	sk := run(false)
+	switch {
+	case c09HasLockOps(sk):
+		if x.recursed[key] {
+			x.fail(at, "%s handles the lock and is recursive", name)
+		}
+		*out = append(*out, run(true)) // spliced in; fails unless every return is in tail position
+	case strings.Contains(sk, ".touch"):
+		*out = append(*out, ".touch")
+	case strings.Contains(sk, ".peek"):
+		*out = append(*out, ".peek")
+	}
 }
 
 func (x *c09Extract) exprs(es []ast.Expr) string {
@@ -278,10 +497,12 @@ func (x *c09Extract) exprs(es []ast.Expr) string {
 func (x *c09Extract) lhs(e ast.Expr, out *[]string) {
 	switch e := e.(type) {
 	case *ast.Ident:
-		if e.Name == x.recv || x.pkgVars[e.Name] {
+		if _, ok := x.env.alias[e.Name]; ok || x.allocVars[e.Name] || x.pkgVars[e.Name] || x.funcs[e.Name] != nil {
 			x.fail(e, "assignment to %s is not understood", e.Name)
 		}
-	case *ast.SelectorExpr, *ast.IndexExpr:
+	case *ast.ParenExpr:
+		x.lhs(e.X, out)
+	case *ast.SelectorExpr, *ast.IndexExpr, *ast.StarExpr:
 		if path, idx, ok := x.recvPath(e); ok {
 			for _, i := range idx {
 				x.expr(i, out, false)
@@ -289,6 +510,8 @@ func (x *c09Extract) lhs(e ast.Expr, out *[]string) {
 			*out = append(*out, x.access(e, path, false, true))
 			return
 		}
+		// a field / element / target of an untracked local: not allocator state (S2); a package
+		// variable at the root is reported as read here and as written in `writers`
 		x.expr(e, out, false)
 	default:
 		x.fail(e, "assignment target %T is not understood", e)
@@ -325,7 +548,46 @@ func (x *c09Extract) mutexCall(s ast.Stmt) string {
 	return ""
 }
 
-func (x *c09Extract) stmt(s ast.Stmt) string {
+// define handles `a, b := e1, e2` / `var a, b = e1, e2`: alias tracking (S2) pairwise, otherwise plain locals.
+func (x *c09Extract) define(names []*ast.Ident, values []ast.Expr, out *[]string) {
+	if len(names) == len(values) {
+		paths := make([][]string, len(names))
+		for k, v := range values {
+			if p, ok := x.aliasOf(v, out); ok {
+				paths[k] = p
+				if paths[k] == nil {
+					paths[k] = []string{}
+				}
+			} else {
+				x.expr(v, out, false)
+			}
+		}
+		for k, id := range names {
+			if id.Name == "_" && paths[k] != nil {
+				continue
+			}
+			x.declare(id, paths[k])
+		}
+		return
+	}
+	for _, v := range values {
+		x.expr(v, out, false)
+	}
+	for _, id := range names {
+		x.declare(id, nil)
+	}
+}
+
+func (x *c09Extract) block(list []ast.Stmt, tail bool) string {
+	var out []string
+	for k, t := range list {
+		out = append(out, x.stmt(t, tail && k == len(list)-1))
+	}
+	return c09Block(out)
+}
+
+// stmt translates a statement; tail = nothing of the function body is executed after it.
+func (x *c09Extract) stmt(s ast.Stmt, tail bool) string {
 	if m := x.mutexCall(s); m != "" {
 		return m
 	}
@@ -337,13 +599,21 @@ func (x *c09Extract) stmt(s ast.Stmt) string {
 	case *ast.ExprStmt:
 		return x.exprs([]ast.Expr{s.X})
 	case *ast.BlockStmt:
-		var out []string
-		for _, t := range s.List {
-			out = append(out, x.stmt(t))
-		}
-		return c09Block(out)
+		return x.block(s.List, tail)
 	case *ast.AssignStmt:
 		var out []string
+		if s.Tok == token.DEFINE {
+			var names []*ast.Ident
+			for _, l := range s.Lhs {
+				id, ok := l.(*ast.Ident)
+				if !ok {
+					x.fail(s, ":= with a non-identifier")
+				}
+				names = append(names, id)
+			}
+			x.define(names, s.Rhs, &out)
+			return c09Block(out)
+		}
 		for _, e := range s.Rhs {
 			x.expr(e, &out, false)
 		}
@@ -366,49 +636,106 @@ func (x *c09Extract) stmt(s ast.Stmt) string {
 			if !ok {
 				x.fail(s, "declaration is not understood")
 			}
-			for _, e := range vs.Values {
-				x.expr(e, &out, false)
-			}
+			x.define(vs.Names, vs.Values, &out)
 		}
 		return c09Block(out)
 	case *ast.IfStmt:
+		init := x.stmt(s.Init, false)
+		cond := x.exprs([]ast.Expr{s.Cond})
+		body := x.stmt(s.Body, tail)
 		els := ".skip"
 		if s.Else != nil {
-			els = x.stmt(s.Else)
+			els = x.stmt(s.Else, tail)
 		}
-		ite := "(.ite " + x.exprs([]ast.Expr{s.Cond}) + " " + x.stmt(s.Body) + " " + els + ")"
-		return c09Block([]string{x.stmt(s.Init), ite})
+		return c09Block([]string{init, "(.ite " + cond + " " + body + " " + els + ")"})
 	case *ast.ForStmt:
-		loop := "(.loop " + x.exprs([]ast.Expr{s.Cond}) + " " + x.stmt(s.Body) + " " + x.stmt(s.Post) + ")"
-		return c09Block([]string{x.stmt(s.Init), loop})
+		init := x.stmt(s.Init, false)
+		cond := x.exprs([]ast.Expr{s.Cond})
+		saved := x.env.inSwitch
+		x.env.inSwitch = 0
+		body := x.stmt(s.Body, false)
+		x.env.inSwitch = saved
+		post := x.stmt(s.Post, false)
+		return c09Block([]string{init, "(.loop " + cond + " " + body + " " + post + ")"})
 	case *ast.RangeStmt:
-		for _, kv := range []ast.Expr{s.Key, s.Value} {
-			if kv != nil {
-				id, ok := kv.(*ast.Ident)
-				if !ok || s.Tok != token.DEFINE || id.Name == x.recv || x.pkgVars[id.Name] {
-					x.fail(s, "range variables must be newly defined identifiers that shadow nothing")
+		var kv []*ast.Ident
+		for _, e := range []ast.Expr{s.Key, s.Value} {
+			if e != nil {
+				id, ok := e.(*ast.Ident)
+				if !ok || s.Tok != token.DEFINE {
+					x.fail(s, "range variables must be newly defined identifiers")
 				}
+				kv = append(kv, id)
 			}
 		}
 		var cond []string
 		whole := s.Value != nil && s.Value.(*ast.Ident).Name != "_"
+		var elem []string
 		if path, idx, ok := x.recvPath(s.X); ok {
 			for _, i := range idx {
 				x.expr(i, &cond, false)
 			}
 			cond = append(cond, x.access(s.X, path, whole, false))
+			if e := append(append([]string{}, path...), "[]"); whole && c09IsAggregate(e) {
+				elem = e // a copied pool shares its bitmap with the original: tracked like the element itself
+			}
 		} else {
 			x.expr(s.X, &cond, true)
 		}
-		return "(.loop " + c09Block(cond) + " " + x.stmt(s.Body) + " .skip)"
+		for k, id := range kv {
+			if k == 1 {
+				x.declare(id, elem)
+			} else {
+				x.declare(id, nil)
+			}
+		}
+		saved := x.env.inSwitch
+		x.env.inSwitch = 0
+		body := x.stmt(s.Body, false)
+		x.env.inSwitch = saved
+		return "(.loop " + c09Block(cond) + " " + body + " .skip)"
+	case *ast.SwitchStmt:
+		init := x.stmt(s.Init, false)
+		tag := x.exprs([]ast.Expr{s.Tag})
+		x.env.inSwitch++
+		els := ".skip"
+		type arm struct{ cond, body string }
+		var arms []arm
+		for _, c := range s.Body.List {
+			cc, ok := c.(*ast.CaseClause)
+			if !ok {
+				x.fail(c, "switch clause is not understood")
+			}
+			body := x.block(cc.Body, tail)
+			if cc.List == nil {
+				els = body
+			} else {
+				arms = append(arms, arm{x.exprs(cc.List), body})
+			}
+		}
+		x.env.inSwitch--
+		for k := len(arms) - 1; k >= 0; k-- {
+			els = "(.ite " + arms[k].cond + " " + arms[k].body + " " + els + ")"
+		}
+		return c09Block([]string{init, tag, els})
 	case *ast.ReturnStmt:
-		return c09Block([]string{x.exprs(s.Results), ".ret"})
+		res := x.exprs(s.Results)
+		if x.env.tailOnly {
+			if !tail {
+				x.fail(s, "a helper that handles the lock returns from the middle of its body (not understood)")
+			}
+			return res
+		}
+		return c09Block([]string{res, ".ret"})
 	case *ast.BranchStmt:
 		if s.Label != nil {
 			x.fail(s, "labelled %s is not understood", s.Tok)
 		}
 		switch s.Tok {
 		case token.BREAK:
+			if x.env.inSwitch > 0 {
+				x.fail(s, "break out of a switch is not understood")
+			}
 			return ".brk"
 		case token.CONTINUE:
 			return ".cont"
@@ -421,11 +748,29 @@ func (x *c09Extract) stmt(s ast.Stmt) string {
 
 type c09Writer struct{ name, fn string }
 
+func c09FuncKey(fd *ast.FuncDecl) string {
+	typ := ""
+	if fd.Recv != nil && len(fd.Recv.List) == 1 {
+		t := fd.Recv.List[0].Type
+		if st, ok := t.(*ast.StarExpr); ok {
+			t = st.X
+		}
+		if id, ok := t.(*ast.Ident); ok {
+			typ = id.Name
+		}
+	}
+	return typ + "." + fd.Name.Name
+}
+
 // c09Writers lists every (name, function) such that the function assigns to, increments or takes
-// the address of a field / package variable called name, in all non-test files of the package.
-func c09Writers(files []*ast.File, names map[string]bool) []c09Writer {
+// the address of something called name (the field or element written, or the variable at the root
+// of the written location), in all non-test files of the package.  Exception: `&s[i]` inside a function the
+// extractor has analysed is not reported as taking the address of s: there the pointer is a tracked
+// alias (S2), every use of it is classified, and a write to init-only state through it fails the extraction.
+func c09Writers(files []*ast.File, names, analysed map[string]bool) []c09Writer {
 	seen := map[c09Writer]bool{}
-	last := func(e ast.Expr) string {
+	chain := func(e ast.Expr) (ns []string) {
+		first := true
 		for {
 			switch t := e.(type) {
 			case *ast.ParenExpr:
@@ -437,11 +782,15 @@ func c09Writers(files []*ast.File, names map[string]bool) []c09Writer {
 			case *ast.StarExpr:
 				e = t.X
 			case *ast.SelectorExpr:
-				return t.Sel.Name
+				if first {
+					ns = append(ns, t.Sel.Name)
+					first = false
+				}
+				e = t.X
 			case *ast.Ident:
-				return t.Name
+				return append(ns, t.Name)
 			default:
-				return ""
+				return ns
 			}
 		}
 	}
@@ -452,8 +801,10 @@ func c09Writers(files []*ast.File, names map[string]bool) []c09Writer {
 				continue
 			}
 			note := func(e ast.Expr) {
-				if n := last(e); names[n] {
-					seen[c09Writer{n, fd.Name.Name}] = true
+				for _, n := range chain(e) {
+					if names[n] {
+						seen[c09Writer{n, fd.Name.Name}] = true
+					}
 				}
 			}
 			ast.Inspect(fd.Body, func(n ast.Node) bool {
@@ -467,7 +818,7 @@ func c09Writers(files []*ast.File, names map[string]bool) []c09Writer {
 				case *ast.IncDecStmt:
 					note(n.X)
 				case *ast.UnaryExpr:
-					if n.Op == token.AND {
+					if _, elem := c09Unparen(n.X).(*ast.IndexExpr); n.Op == token.AND && !(elem && analysed[c09FuncKey(fd)]) {
 						note(n.X)
 					}
 				}
@@ -507,8 +858,9 @@ func c09Facts() (text string, err error) {
 	names, _ := filepath.Glob(filepath.Join(dir, "*.go"))
 	sort.Strings(names)
 	var files []*ast.File
-	x := &c09Extract{typ: "BitmapAllocator", imports: map[string]bool{}, pkgVars: map[string]bool{},
-		methods: map[string]*ast.FuncDecl{}, peeked: map[string]bool{}, callees: map[string]bool{}, fset: fset}
+	x := &c09Extract{typ: "BitmapAllocator", imports: map[string]bool{}, pkgVars: map[string]bool{}, allocVars: map[string]bool{},
+		funcs: map[string]*ast.FuncDecl{}, methods: map[string]map[string]*ast.FuncDecl{}, peeked: map[string]bool{},
+		callees: map[string]bool{}, analysed: map[string]bool{}, active: map[string]bool{}, recursed: map[string]bool{}, fset: fset}
 	for _, n := range names {
 		if strings.HasSuffix(n, "_test.go") {
 			continue
@@ -531,19 +883,28 @@ func c09Facts() (text string, err error) {
 			case *ast.GenDecl:
 				if d.Tok == token.VAR {
 					for _, sp := range d.Specs {
-						for _, id := range sp.(*ast.ValueSpec).Names {
+						vs := sp.(*ast.ValueSpec)
+						for _, id := range vs.Names {
 							x.pkgVars[id.Name] = true
+							if t, ok := vs.Type.(*ast.Ident); ok && t.Name == x.typ {
+								x.allocVars[id.Name] = true
+							}
 						}
 					}
 				}
 			case *ast.FuncDecl:
-				if d.Recv != nil && len(d.Recv.List) == 1 {
+				if d.Recv == nil {
+					x.funcs[d.Name.Name] = d
+				} else if len(d.Recv.List) == 1 {
 					t := d.Recv.List[0].Type
 					if st, ok := t.(*ast.StarExpr); ok {
 						t = st.X
 					}
-					if id, ok := t.(*ast.Ident); ok && id.Name == x.typ {
-						x.methods[d.Name.Name] = d
+					if id, ok := t.(*ast.Ident); ok {
+						if x.methods[id.Name] == nil {
+							x.methods[id.Name] = map[string]*ast.FuncDecl{}
+						}
+						x.methods[id.Name][d.Name.Name] = d
 					}
 				}
 			}
@@ -553,25 +914,29 @@ func c09Facts() (text string, err error) {
 	b.WriteString("-- GENERATED by ./check from /repo (TestVerifFactsC09: go/parser over kernel/mm/pmm); do not edit.\n")
 	b.WriteString("import Firefly.Model.Locked\nnamespace Firefly.Gen.C09\nopen Firefly.Locked\n")
 	for _, m := range []struct{ goName, leanName string }{{"AllocFrame", "allocFrameSkel"}, {"FreeFrame", "freeFrameSkel"}} {
-		fd := x.methods[m.goName]
+		fd := x.methods[x.typ][m.goName]
 		if fd == nil || fd.Body == nil {
 			return "", fmt.Errorf("skeleton extraction failed: method %s.%s not found", x.typ, m.goName)
 		}
-		st, ok := fd.Recv.List[0].Type.(*ast.StarExpr)
-		if !ok || len(fd.Recv.List[0].Names) != 1 {
+		if _, ok := fd.Recv.List[0].Type.(*ast.StarExpr); !ok || len(fd.Recv.List[0].Names) != 1 {
 			return "", fmt.Errorf("skeleton extraction failed: %s must have a named pointer receiver", m.goName)
 		}
-		_ = st
-		x.recv = fd.Recv.List[0].Names[0].Name
-		for _, p := range fd.Type.Params.List { // a parameter shadowing a package variable is a local
+		x.env = &c09Env{alias: map[string][]string{fd.Recv.List[0].Names[0].Name: {}}}
+		x.analysed[c09FuncKey(fd)] = true
+		for _, p := range fd.Type.Params.List {
 			for _, id := range p.Names {
-				if x.pkgVars[id.Name] || id.Name == x.recv {
-					return "", fmt.Errorf("skeleton extraction failed: parameter %s shadows a package name", id.Name)
+				x.declare(id, nil)
+			}
+		}
+		if fd.Type.Results != nil {
+			for _, r := range fd.Type.Results.List {
+				for _, id := range r.Names {
+					x.declare(id, nil)
 				}
 			}
 		}
 		fmt.Fprintf(&b, "/-- `%s.%s` (%s) -/\ndef %s : Skel :=\n  %s\n", x.typ, m.goName,
-			filepath.Base(fset.Position(fd.Pos()).Filename), m.leanName, x.stmt(fd.Body))
+			filepath.Base(fset.Position(fd.Pos()).Filename), m.leanName, x.stmt(fd.Body, true))
 	}
 	var pk []string
 	for n := range x.peeked {
@@ -585,9 +950,9 @@ func c09Facts() (text string, err error) {
 		}
 		return "[" + strings.Join(ys, ", ") + "]"
 	}
-	fmt.Fprintf(&b, "/-- allocator fields / package variables the two methods read outside the lock-protected set -/\ndef peeked : List String := %s\n", q(pk))
+	fmt.Fprintf(&b, "/-- allocator fields / package variables the two methods (and their helpers) read outside the lock-protected set -/\ndef peeked : List String := %s\n", q(pk))
 	var ws []string
-	for _, w := range c09Writers(files, x.peeked) {
+	for _, w := range c09Writers(files, x.peeked, x.analysed) {
 		ws = append(ws, fmt.Sprintf("(%q, %q)", w.name, w.fn))
 	}
 	fmt.Fprintf(&b, "/-- every (name, function) of the package where the function assigns to or takes the address of a peeked name -/\ndef writers : List (String × String) := [%s]\n", strings.Join(ws, ", "))
@@ -596,7 +961,7 @@ func c09Facts() (text string, err error) {
 		cs = append(cs, n)
 	}
 	sort.Strings(cs)
-	fmt.Fprintf(&b, "/-- receiver methods called inside the critical sections (checked by the extractor not to use the mutex) -/\ndef callees : List String := %s\n", q(cs))
+	fmt.Fprintf(&b, "/-- functions and methods of the package analysed on behalf of the two methods (summarised by their strongest access, or spliced in when they handle the lock) -/\ndef callees : List String := %s\n", q(cs))
 	b.WriteString("end Firefly.Gen.C09\n")
 	return b.String(), nil
 }
